@@ -6,6 +6,11 @@ COMMON_NOTE = ("Trusted: Lean 4.33 kernel; axioms limited to propext/Quot.sound/
                "lean/MoreExec/Props. Correspondence covers the explored schedules only; the universal claim is about the model.")
 
 PROPS = {
+    "C15": dict(
+        technique="Lean 4 proofs (induction over any completion order / permutation) that the zipper output holds input i's result at position i, first failure wins, f_traverse call discipline, over the decision kernel K6 regenerated from futures/zip.py; histories of the real f_zip/f_sequence/f_traverse replayed through the Lean model",
+        level_text="Machine-checked theorems for every number of inputs and every completion order: positions are preserved, the first exception/cancellation observed decides the output and nothing later changes it, f_traverse calls fn once per element in order and stops at the first raise. K6 is regenerated from zip.py every run and differentially tested; real executions under random/PCT schedules supply the order of handle_done critical sections, which the Lean model runs and whose result is compared (by object identity) with the real output.",
+        design_ref="DESIGN.md section 6 C15, Appendix A.3",
+        level_note="Modelled, not verified: mutual exclusion of the handle_done sections (order read from the log); the list() mapping step of f_sequence/f_traverse is C13's MapFuture; exception objects assumed truthy (S18)."),
     "C14": dict(
         technique="Lean 4 proofs (structural induction over the completion order) that f_or / f_and equal the or/and fold, losers-cancelled and decided-once, over the decision kernel K5 regenerated from futures/bool.py; histories of the real code (order of handle_done critical sections under a deterministic scheduler) replayed through the Lean fold",
         level_text="Machine-checked theorems for every completion order of any length: the output equals the or/and fold, exactly the inputs pending at the decision are cancelled, later completions change nothing, cancelling the output fans out. The decision function is regenerated from bool.py each run (and differentially tested exhaustively); real executions under random/PCT schedules supply the critical-section order, which the Lean model folds and the result is compared with the real output future and the cancel() calls observed.",
